@@ -11,7 +11,7 @@ impl Prop for Ledger {
     const ID: &'static str = "C03";
     const NAME: &'static str = "ledger";
     fn rule() -> &'static str {
-        "histories of updates (all 8 point types, classes 1-3, every event variation, unique values), READs (by class / by type / specific variation, all-objects or count-limited 0,1,2,n), right and wrong solicited/unsolicited confirms, time advances around the confirm timeout and retry delay, aborting requests, ENABLE/DISABLE_UNSOLICITED, reconnects; per-type buffers 0..8, retries None/0/1/3, tx buffers 249..; oracle = an independent ledger: L1 release only inside a confirm bracket following the harness' own matching in-time confirm of the fragment that carried the event, L2 everything the confirmed fragment carried is released exactly once, L3 every event object on the wire matches a live recorded event (nothing invented/resurrected), L4 oldest first, L5 exact index/value/flags/time under the reference decoder, L6 after a confirmed drain released + drained = recorded - discarded and end_confirm's buffer state equals the ledger; non-trivial = an event-bearing fragment that was not confirmed followed later by a confirmed event-bearing one, or an overflow"
+        "histories of updates (all 8 point types, classes 1-3, every event variation, unique values), READs (by class / by type / specific variation, all-objects or count-limited 0,1,2,n), right and wrong solicited/unsolicited confirms, time advances around the confirm timeout and retry delay, aborting requests (addressed and by broadcast), ENABLE/DISABLE_UNSOLICITED (addressed and by broadcast), reconnects; per-type buffers 0..8, retries None/0/1/3, tx buffers 249..; oracle = an independent ledger: L1 release only inside a confirm bracket following the harness' own matching in-time confirm of the fragment that carried the event, L2 everything the confirmed fragment carried is released exactly once, L3 every event object on the wire matches a live recorded event (nothing invented/resurrected), L4 oldest first, L5 exact index/value/flags/time under the reference decoder and - unless the READ names a variation itself - in the variation configured for the point, L6 after a confirmed drain released + drained = recorded - discarded and end_confirm's buffer state equals the ledger; non-trivial = an event-bearing fragment that was not confirmed followed later by a confirmed event-bearing one, or an overflow"
     }
     fn cases(tier: Tier) -> u32 {
         match tier {
